@@ -22,7 +22,7 @@ for sid in sorted(os.listdir(os.path.join(HERE, "seeded"))):
         sid, ", ".join(f.replace("odml/", "") for f in files), what.replace("|", "/"),
         "; ".join(caught)[:230].replace("|", "/") or "-",
         ("missed at first by %s" % ",".join(missed_first)) if missed_first and not missed else
-        ("%s: %s" % (m["status"], m["note"])) if m.get("status") in ("neutralised", "masked-by-known-finding", "not-caught", "outside-quantifier") else
+        ("%s: %s" % (m["status"], m["note"])) if m.get("status") in ("neutralised", "masked-by-known-finding", "not-caught", "outside-quantifier", "inconclusive") else
         ("MISSED by %s" % ",".join(missed) if missed else "")))
 print("| Seeded change | Files | What it is (first line of the author's note) | Caught by (first keys) | Note |")
 print("|---|---|---|---|---|")
